@@ -223,35 +223,68 @@ func ruleTransport(c *Checker, frame, retry, fresh string) {
 			c.fail(fresh, nn.Obj().Name()+".Refresh|shape", token.NoPos, "Refresh / *Connected not found")
 			continue
 		}
-		bad := ""
-		allInstrs(refresh, func(in ssa.Instruction) {
-			st, ok := in.(*ssa.Store)
-			if !ok {
-				return
+		// the object Refresh returns: allocated in Refresh itself, or by a constructor of the package
+		// that Refresh calls (every return of which is again such an object)
+		involved := []*ssa.Function{refresh}
+		var freshObj func(v ssa.Value, depth int) bool
+		freshObj = func(v ssa.Value, depth int) bool {
+			if depth > 4 {
+				return false
 			}
-			fa, ok := st.Addr.(*ssa.FieldAddr)
-			if !ok {
-				return
-			}
-			for _, f := range tested {
-				if structFieldOf(fa) == f && !isNilConst(st.Val) {
-					bad = f.Name()
+			switch x := v.(type) {
+			case *ssa.MakeInterface:
+				return freshObj(x.X, depth)
+			case *ssa.ChangeInterface:
+				return freshObj(x.X, depth)
+			case *ssa.Alloc:
+				return x.Heap
+			case *ssa.Call:
+				callee := x.Common().StaticCallee()
+				if callee == nil || !w.inTargets(callee) || len(callee.Blocks) == 0 || callee.Signature.Results().Len() != 1 {
+					return false
 				}
-			}
-		})
-		// ... and it is a new object
-		newObj := false
-		allInstrs(refresh, func(in ssa.Instruction) {
-			if ret, ok := in.(*ssa.Return); ok {
-				for _, v := range expandValues(ret.Results[0]) {
-					if mi, ok := v.(*ssa.MakeInterface); ok {
-						if al, ok := mi.X.(*ssa.Alloc); ok && al.Heap {
-							newObj = true
+				involved = append(involved, callee)
+				ok, n := true, 0
+				allInstrs(callee, func(in ssa.Instruction) {
+					if ret, isRet := in.(*ssa.Return); isRet && ret.Block().Comment != "recover" {
+						for _, r := range expandValues(ret.Results[0]) {
+							n++
+							ok = ok && freshObj(r, depth+1)
 						}
 					}
+				})
+				return ok && n > 0
+			}
+			return false
+		}
+		newObj, nRet := true, 0
+		allInstrs(refresh, func(in ssa.Instruction) {
+			if ret, ok := in.(*ssa.Return); ok && ret.Block().Comment != "recover" {
+				for _, v := range expandValues(ret.Results[0]) {
+					nRet++
+					newObj = newObj && freshObj(v, 0)
 				}
 			}
 		})
+		newObj = newObj && nRet > 0
+		bad := ""
+		for _, fn := range involved {
+			allInstrs(fn, func(in ssa.Instruction) {
+				st, ok := in.(*ssa.Store)
+				if !ok {
+					return
+				}
+				fa, ok := st.Addr.(*ssa.FieldAddr)
+				if !ok {
+					return
+				}
+				for _, f := range tested {
+					if structFieldOf(fa) == f && !isNilConst(st.Val) {
+						bad = f.Name()
+					}
+				}
+			})
+		}
 		c.decide(bad == "" && newObj, fresh, nn.Obj().Name()+".Refresh|a new transport without the old streams", refresh.Pos(), "new object; the fields *Connected() test stay unset",
 			nn.Obj().Name()+".Refresh carries "+bad+" of the closed connection over (or returns the old object): the refreshed connection believes it is connected and never re-opens its streams")
 	}
